@@ -146,6 +146,135 @@ def replay(su, sch, harness, name, script, kind, rules, U=8):
     return bool(failing), failing
 
 
+def search_forced(su, U, k, K, timeout_s=300, solver="kissat"):
+    """C02 witness: a history from new(), a model N of the reference rules and an interpretation h of the caller-created
+    elements in N that satisfies every asserted fact, such that after close() some tuple over caller-created elements is
+    not mapped into N or two caller-created elements with different images are equal.  Returns (script, info) | (None, why)"""
+    import ghost as G
+    import lemmas as L
+    t0 = time.time()
+    h = H.SymHistory(su, U, None)
+    c = h.c
+    gh, hom = G.Ghost(h.ctx, h.sch), G.Hom(h.ctx, h.sch)
+    h.assume += [gh.wellformed(), gh.is_model(su.rules)]
+
+    def on_alt(g, name, args, r):
+        h.assume.append(c.implies(g, L.asserted_in_ghost(su, h.sch, h.st, gh, hom, name, args)))
+        r = h.I.deref(r)
+        if name.startswith("define_") or (name.startswith("new_") and args):
+            # the caller learns the element that denotes the term: its image is the value of the term in N
+            if name.startswith("define_"):
+                R = h.sch.rels[name[len("define_"):]]
+                h.assume.append(c.implies(g, G.img_sym(gh, hom, R, list(args) + [r])))
+            else:
+                t = name[len("new_"):]
+                for vn, (gv, payload) in args[0].alts.items():
+                    R = dict(L.enum_types(su, h.sch)[t][1])[vn]
+                    h.assume.append(c.implies(c.and2(g, gv), G.img_sym(gh, hom, R, list(payload) + [r])))
+    h.on_alt = on_alt
+    h.precreate()
+    for i in range(k):
+        h.sym_call(i)
+    lens0 = {t: h.st.nelems(t) for t in h.sch.types}
+    for t in h.sch.types:
+        for i in range(U):
+            h.assume.append(c.implies(h.st.in_range(t, i), c.orl([c.and2(hom.lit(t, i, v), gh.exists(t, v)) for v in range(U)])))
+    bad = []
+
+    def on_return(rv):
+        st = h.st
+        old = {(t, i): V.int_lt(i, lens0[t]) for t in h.sch.types for i in range(U)}
+        for rel in h.sch.user_rels():
+            for row in M.rows_of(rel, U):
+                hd = st.rel_holds(rel.name, row)
+                if hd == F:
+                    continue
+                caller = c.andl([old[(t, x)] for t, x in zip(rel.types, row)])
+                bad.append(c.and_(hd, caller, -G.img(gh, hom, rel, row)))
+        for t in h.sch.types:
+            roots = [st.root_of(t, i, U) for i in range(U)]
+            for a in range(U):
+                for b in range(a + 1, U):
+                    same = c.andl([c.iff(hom.lit(t, a, v), hom.lit(t, b, v)) for v in range(U)])
+                    bad.append(c.and_(old[(t, a)], old[(t, b)], V.int_eq(roots[a], roots[b]), -same))
+    h.sym_close(K, False, lambda g: None, on_return)
+    bound = c.orl([g for g, kk, _ in h.ctx.events if kk in ("bound", "compact")])
+    enc = time.time() - t0
+    try:
+        r, model = terms.solve(c, h.ctx.assumes + h.assume + [-bound, c.orl(bad)], solver=solver, timeout_s=timeout_s)
+    except terms.SolverError as ex:
+        return None, "solver: %s (encode %.1fs, %d nodes)" % (ex, enc, c.n)
+    if r == "unsat":
+        return None, "no history with U=%d, %d calls, %d iterations derives a fact that some model of the rules and of the assertions lacks (encode %.1fs, %d nodes)" % (U, k, K, enc, c.n)
+    script = h.decode(model)
+    return script, {"U": U, "k": k, "K": K, "nodes": c.n, "encode_s": round(enc, 1), "N": gh.decode(c, model), "h": hom.decode(c, model)}
+
+
+def replay_forced(su, sch, harness, name, script, info, U=8):
+    """native certificate check: N (from the solver) is a model of the reference rules and, under h, of everything the
+    script asserts; the natively closed model nevertheless contains a tuple / an equality over caller-created elements
+    that N lacks under h"""
+    import ghost as G
+    N_ = {k: set(tuple(r) for r in v) for k, v in info["N"].items()}
+    hmap = info["h"]
+    UN = info["U"]
+    problems = G.concrete_is_model(su.rules, N_, UN)
+    if problems:
+        return False, ["the solver's structure N is not a model of the reference rules: %s" % problems[:3]]
+    lines = list(script)
+    if not lines or not lines[-1].startswith("close"):
+        return False, ["script does not end in close"]
+    body = lines[:-1]
+    rc, out, err = harness.run(name, body + ["dump", "close", "dump"], timeout=60)
+    if rc != 0:
+        return True, ["native run panics: " + err.strip().split("\n")[0][:200]]
+    events = N.parse_output(out)
+    rets = [e[1] for e in events if e[0] == "ret"]
+    dumps = [e[2] for e in events if e[0] == "dump"]
+    nt = set(su.prog.newtypes)
+    import re as _re
+
+    def image(t, x):
+        return hmap[t][x] if x < len(hmap[t]) else None
+    # the assertions of the script hold in N under h
+    for l, r in zip(body, rets):
+        w = l.split()
+        r = H.normalise_native_ret(r, nt)
+        fn = w[0]
+        a = [int(x) for x in w[1:] if x.isdigit()]
+        if fn.startswith("insert_"):
+            R = sch.rels[fn[7:]]
+            if tuple(image(t, x) for t, x in zip(R.types, a)) not in N_.get(R.name, set()):
+                return False, ["N does not satisfy the assertion %s under h" % l]
+        elif fn.startswith("equate_"):
+            if image(fn[7:], a[0]) != image(fn[7:], a[1]):
+                return False, ["N does not satisfy the assertion %s under h" % l]
+        elif fn.startswith("define_"):
+            R = sch.rels[fn[7:]]
+            if not r.isdigit() or tuple(image(t, x) for t, x in zip(R.types, a + [int(r)])) not in N_.get(R.name, set()):
+                return False, ["N does not satisfy the assertion %s = %s under h" % (l, r)]
+        elif fn.startswith("new_") and len(w) > 1:
+            return False, ["enum constructors in the script: not handled by this replay"]
+    before, after = dumps[0], dumps[1]
+    st = M.State(sch, N.state_from_dump(sch, after, U)) if False else None
+    nat = N.canonical_native(sch, after)
+    n0 = {t: int(before[("uf", t)].split(" ", 1)[0]) for t in sch.types}
+    roots = {t: N.ints(after[("uf", t)].split(" ", 1)[1]) for t in sch.types}
+    failing = []
+    for rel in sch.user_rels():
+        rows = set(nat[("field", rel.full("new").field)]) | set(nat[("field", rel.full("old").field)])
+        for row in sorted(rows):
+            if all(x < n0[t] for t, x in zip(rel.types, row)):
+                if tuple(image(t, x) for t, x in zip(rel.types, row)) not in N_.get(rel.name, set()):
+                    failing.append("close() derived %s%s, which fails in the model N=%s of the rules and of the assertions (interpretation %s)" % (rel.name, list(row), {k: sorted(v) for k, v in N_.items()}, hmap))
+    for t in sch.types:
+        for a in range(n0[t]):
+            for b in range(a + 1, n0[t]):
+                if roots[t][a] == roots[t][b] and image(t, a) != image(t, b):
+                    failing.append("close() identified %s elements %d and %d, which are different in the model N=%s of the rules and of the assertions (interpretation %s)" % (t, a, b, {k: sorted(v) for k, v in N_.items()}, hmap))
+    return bool(failing), failing[:4]
+
+
 def replay_contract(su, sch, harness, name, script):
     """C07: the observable state at the return of the final close_until must be the state in which its condition was last
     evaluated (with the outcome that is returned)"""
